@@ -1,0 +1,44 @@
+//go:build verif
+
+package serf
+
+import "time"
+
+// Verification hooks (add-only): a QueryResponse that the harness feeds itself
+// (no Serf timer closes it), for the IPC query stream (C25).
+
+func VerifIPCNewQueryResponse(n int, timeout time.Duration, ack bool) *QueryResponse {
+	q := &messageQuery{Timeout: timeout}
+	if ack {
+		q.Flags |= queryFlagAck
+	}
+	return newQueryResponse(n, q)
+}
+
+// VerifIPCSendAck delivers an ack the way handleQueryResponse does; the result says
+// whether it entered the channel ("sent"), the query was already closed, or the channel was full.
+func (r *QueryResponse) VerifIPCSendAck(from string) string {
+	r.closeLock.Lock()
+	closed := r.closed
+	r.closeLock.Unlock()
+	if closed || r.ackCh == nil {
+		return "closed"
+	}
+	if err := r.sendAck(&messageQueryResponse{From: from, Flags: queryFlagAck}); err != nil {
+		return "full"
+	}
+	return "sent"
+}
+
+func (r *QueryResponse) VerifIPCSendResponse(from string, payload []byte) string {
+	r.closeLock.Lock()
+	closed := r.closed
+	r.closeLock.Unlock()
+	if closed {
+		return "closed"
+	}
+	if err := r.sendResponse(NodeResponse{From: from, Payload: payload}); err != nil {
+		return "full"
+	}
+	return "sent"
+}
